@@ -860,3 +860,59 @@ Example max_nr_zero_refuted :
   /\ find_deltas_truncate_age Checked (mkCfg 0 0 0 7200 false) 100000000%Z
     [w_young 99000000 4; w_young 98000000 3; w_young 97000000 2] = None.
 Proof. split; vm_compute; reflexivity. Qed.
+
+(** ** Non-vacuity *)
+Lemma in_firstn_l {A : Type} (x : A) n : forall l, In x (firstn n l) -> In x l.
+Proof.
+  induction n as [|n IH]; intros l H; [destruct H|]. destruct l as [|a l]; [destruct H|].
+  simpl in H. destruct H as [H|H]; [left; exact H|right; apply IH; exact H].
+Qed.
+Lemma single_owner_disjoint st h :
+  (forall q, q <> h -> snap_of st q = [] /\ staged_of st q = []) -> PubDisjoint st.
+Proof.
+  intros H p q k Hpq Hp Hq.
+  destruct (handle_eq_dec p h) as [->|Hp'].
+  - destruct (H q (fun E => Hpq (eq_sym E))) as [E1 E2]. destruct Hq as [Hq|Hq]; apply Hq; [rewrite E1|rewrite E2]; reflexivity.
+  - destruct (H p Hp') as [E1 E2]. destruct Hp as [Hp|Hp]; apply Hp; [rewrite E1|rewrite E2]; reflexivity.
+Qed.
+Lemma w_only_7 (snap : list (handle * objects)) (stg : list (handle * staged)) base pubs serial :
+  (forall x, In x (map fst snap) -> x = [7]) -> (forall x, In x (map fst stg) -> x = [7]) ->
+  PubDisjoint (mkState base pubs snap stg serial).
+Proof.
+  intros H1 H2. apply (single_owner_disjoint _ [7]). intros q Hq. unfold snap_of, staged_of. simpl. split.
+  - rewrite h_get_none_notin; [reflexivity|]. intros Hin. apply Hq. apply H1. exact Hin.
+  - rewrite h_get_none_notin; [reflexivity|]. intros Hin. apply Hq. apply H2. exact Hin.
+Qed.
+
+(** The state after the first update of the witness history, and two more requests. *)
+Definition w_ops1 : list rop := firstn 3 w_ops.
+Definition w_ops2 : list rop := firstn 2 (skipn 3 w_ops).
+Definition w_r1 : rrdp := match rrun Checked w_sz (rinit w_base 8 0) w_ops1 with Some r => r | None => rinit w_base 8 0 end.
+Definition w_r2 : rrdp := match rrun Checked w_sz w_r1 w_ops2 with Some r => r | None => w_r1 end.
+
+Example delta_chain_sound_nonvacuous :
+  RInv w_r1 /\ good_rops w_ops2 /\ no_reset w_ops2 /\ disjoint_run Checked w_sz w_r1 w_ops2
+  /\ rrun Checked w_sz w_r1 w_ops2 = Some w_r2
+  /\ covers w_r2 (r_serial w_r1) /\ r_serial w_r1 = 2 /\ r_serial w_r2 = 3
+  /\ snd (client_update (offer_of w_r2) (mkClient (r_session w_r1) (r_serial w_r1) (r_snapshot w_r1))) = ViaDeltas.
+Proof.
+  assert (G : good_rops w_ops) by apply w_good.
+  split. { apply (rinv_run Checked w_sz w_ops1 (rinit w_base 8 0) w_r1 (rinv_init _ _ _)); [|vm_compute; reflexivity].
+           unfold w_ops1, good_rops. apply Forall_forall. intros x Hx.
+           apply in_firstn_l in Hx. unfold good_rops in G. rewrite Forall_forall in G. apply G. exact Hx. }
+  split. { unfold w_ops2, good_rops. apply Forall_forall. intros x Hx. apply in_firstn_l in Hx.
+           unfold good_rops in G. rewrite Forall_forall in G. apply G. unfold w_ops. simpl in Hx. simpl. tauto. }
+  split. { unfold w_ops2, w_ops. simpl. repeat constructor. }
+  split. { vm_compute rrun. simpl. repeat split; apply w_only_7; simpl; intros x Hx; intuition congruence. }
+  repeat split; vm_compute; try reflexivity. discriminate.
+Qed.
+
+Example retention_bound_nonvacuous :
+  find_deltas_truncate_age Checked (mkCfg 0 0 2 7200 false) 100000000%Z
+    [w_young 99000000 4; w_young 98000000 3; w_young 97000000 2] = Some 1.
+Proof. vm_compute. reflexivity. Qed.
+
+Example snapshot_is_state_nonvacuous :
+  RInv w_state /\ staged_nonempty (r_st w_state) = true
+  /\ exists r', rstep Checked w_sz w_state OUpdate (w_orc 4000000 4) = Some r'.
+Proof. split; [apply w_state_inv|]. split; [vm_compute; reflexivity|]. eexists. vm_compute. reflexivity. Qed.
